@@ -78,6 +78,11 @@ var commentPool = []string{
 	" \n \n",
 	" a\n\n\n b\n",
 	" non breaking and   em space \n",
+	// Unicode white space next to the interior line breaks (every line is trimmed with unicode.IsSpace)
+	" ends with a non-breaking space\u00a0\n the second line\n",
+	" first\n\u3000indented with an ideographic space\n",
+	" em space after\u2003\n\u2003and before, then a line separator\u2028\n\u0085next line mark\n",
+	" form feed\f\n\vvertical tab\n",
 }
 
 type g struct {
@@ -234,6 +239,12 @@ func (x *g) scalarField(oneof int) desc.Field {
 	}
 	if f.Type != "enum" && x.r.P(15) {
 		f.CastType = castTypeFor(f.Type)
+		// a cast to a PREDECLARED type: plain `int` / `uint` (never qualified with the struct package)
+		if x.r.P(25) && (f.Type == "int64" || f.Type == "sint64" || f.Type == "sfixed64") {
+			f.CastType = "int"
+		} else if x.r.P(25) && (f.Type == "uint64" || f.Type == "fixed64") {
+			f.CastType = "uint"
+		}
 	}
 	x.decorate(&f)
 	return f
